@@ -38,6 +38,45 @@ unsafe impl Sync for JsStr<'_> {}
 //         risk data races (there’s no mutation happening), so this is safe.
 unsafe impl Send for JsStr<'_> {}
 
+/// Parses the digits of a `0b`, `0o` or `0x` string numeric literal (without its prefix) and
+/// returns the exact value rounded once to the nearest `f64`, or `NaN` if `digits` is empty or
+/// contains anything but digits of `base` (a sign is not allowed after the prefix).
+///
+/// `base` must be 2, 8 or 16.
+#[allow(clippy::cast_precision_loss)]
+fn parse_non_decimal_digits(digits: &[u8], base: u32) -> f64 {
+    if digits.is_empty() {
+        return f64::NAN;
+    }
+
+    // `base` is a power of two, so every digit contributes exactly `bits` bits.
+    let bits = base.trailing_zeros();
+
+    // The most significant bits of the value. Once 128 bits are full, the remaining digits are far
+    // below the 53 bits an `f64` keeps: they only scale the value and decide ties (`sticky`).
+    let mut mantissa: u128 = 0;
+    let mut dropped_bits: u32 = 0;
+    let mut sticky = false;
+    for &c in digits {
+        let Some(digit) = char::from(c).to_digit(base) else {
+            return f64::NAN;
+        };
+        if mantissa >> (u128::BITS - bits) == 0 {
+            mantissa = (mantissa << bits) | u128::from(digit);
+        } else {
+            dropped_bits = dropped_bits.saturating_add(bits);
+            sticky |= digit != 0;
+        }
+    }
+
+    let value = (mantissa | u128::from(sticky)) as f64;
+    if dropped_bits == 0 {
+        value
+    } else {
+        value * 2f64.powi(i32::try_from(dropped_bits).unwrap_or(i32::MAX))
+    }
+}
+
 impl<'a> JsStr<'a> {
     /// This represents an empty string.
     pub const EMPTY: Self = Self::latin1("".as_bytes());
@@ -340,26 +379,7 @@ impl<'a> JsStr<'a> {
 
         // Parse numbers that begin with `0b`, `0o` and `0x`.
         if let Some(base) = base {
-            let string = &string[2..];
-            if string.is_empty() {
-                return f64::NAN;
-            }
-
-            // Fast path
-            if let Ok(value) = u32::from_str_radix(string, base) {
-                return f64::from(value);
-            }
-
-            // Slow path
-            let mut value: f64 = 0.0;
-            for c in s {
-                if let Some(digit) = char::from(c).to_digit(base) {
-                    value = value.mul_add(f64::from(base), f64::from(digit));
-                } else {
-                    return f64::NAN;
-                }
-            }
-            return value;
+            return parse_non_decimal_digits(&string.as_bytes()[2..], base);
         }
 
         fast_float2::parse(string).unwrap_or(f64::NAN)
